@@ -169,9 +169,14 @@ func (c *client) read(ctx context.Context, rreq *ocirequest.Request) (_ ociregis
 			resp.Body.Close()
 			resp.Body = io.NopCloser(bytes.NewReader(data))
 		} else {
-			rreq1 := rreq
+			// Note: give up the response we've got before asking again:
+			// when the transport is limited to one connection per host,
+			// a request made while we're still holding an unread body
+			// would wait forever for that connection.
+			resp.Body.Close()
+			rreq1 := *rreq
 			rreq1.Kind = ocirequest.ReqManifestHead
-			resp1, err := c.doRequest(ctx, rreq1)
+			resp1, err := c.doRequest(ctx, &rreq1)
 			if err != nil {
 				return nil, err
 			}
@@ -179,6 +184,19 @@ func (c *client) read(ctx context.Context, rreq *ocirequest.Request) (_ ociregis
 			desc, err = descriptorFromResponse(resp1, ociregistry.Digest(rreq1.Digest), requireSize|requireDigest)
 			if err != nil {
 				return nil, err
+			}
+			// Now that we know the digest, get exactly that content.
+			rreq2 := *rreq
+			rreq2.Tag = ""
+			rreq2.Digest = string(desc.Digest)
+			resp, err = c.doRequest(ctx, &rreq2)
+			if err != nil {
+				return nil, err
+			}
+			desc, err = descriptorFromResponse(resp, desc.Digest, requireSize)
+			if err != nil {
+				resp.Body.Close()
+				return nil, fmt.Errorf("invalid descriptor in response: %v", err)
 			}
 		}
 	}
